@@ -5,7 +5,7 @@ import random
 import re
 import time
 
-from common import REPO, VERIF, load_known_findings
+from common import REPO, VERIF, GOENV, load_known_findings
 from gencases import BuilderGen, PolicyGen, parse_header, OPS, M32, M64
 
 
@@ -13,14 +13,15 @@ from gencases import BuilderGen, PolicyGen, parse_header, OPS, M32, M64
 class Stream:
     """Runs case lines through the real code (harness compile) and the extracted model/specification (driver)."""
 
-    def __init__(self, ctx, harness=None):
+    def __init__(self, ctx, harness=None, env=None):
         self.ctx = ctx
         self.header = None
         self.raw_verdicts = {}
         self.harness = harness      # None: the host build
+        self.env = env
 
     def load_header(self):
-        r = self.ctx.run_harness(["compile"], "", harness=self.harness)
+        r = self.ctx.run_harness(["compile"], "", harness=self.harness, env=self.env)
         if r.returncode != 0:
             raise RuntimeError("harness compile failed: " + r.stderr[-2000:])
         self.header = r.stdout
@@ -30,7 +31,7 @@ class Stream:
         """lines: list of case lines (B/P followed by their V lines). Returns (cases, summary) where cases maps
         id -> dict(line=annotated line, corr='same'|'DIFF', model=..., go=..., events=[(idx, ok, want, got, vline)])."""
         inp = "\n".join(lines) + "\n"
-        r = self.ctx.run_harness(["compile"], inp, harness=self.harness)
+        r = self.ctx.run_harness(["compile"], inp, harness=self.harness, env=self.env)
         if r.returncode != 0:
             raise RuntimeError("harness compile failed: " + r.stderr[-2000:])
         annotated = r.stdout
@@ -248,7 +249,7 @@ ALIASES = {"X86_64": ["amd64", "x86_64"], "I386": ["386", "i386"], "ARM": ["arm"
 
 
 def policy_stream(ctx, prop, kinds, npol, nev, arches=None, defects=None, le_choices=(0, 1), replay=None,
-                  defect_share=0.0, foreign_share=0.15, extra_cases=None, x32_share=0.0, goarch=None, salt=0):
+                  defect_share=0.0, foreign_share=0.15, extra_cases=None, x32_share=0.0, goarch=None, salt=0, native_endian=False):
     """Generate policies of the given kinds, compile them with the implementation and the model, and run the
     implementation's programs on partition events against the specification. Returns dict with results."""
     rng = random.Random(ctx.seed * 1000003 + int(prop[1:]) + salt)
@@ -256,7 +257,11 @@ def policy_stream(ctx, prop, kinds, npol, nev, arches=None, defects=None, le_cho
     if not h:
         ctx.violation("broken-obligation", dict(what="the harness does not build against the repository" + (" for GOARCH=%s" % goarch if goarch else ""), log=err[-3000:]), False)
         return None
-    st = Stream(ctx, harness=h if goarch else None)
+    # native_endian: the harness leaves the byte order as the library determined it for the build (little-endian on the
+    # targets this host can run: amd64, 386)
+    st = Stream(ctx, harness=h if goarch else None, env=dict(GOENV, VERIF_NATIVE_ENDIAN="1") if native_endian else None)
+    if native_endian:
+        le_choices = (1,)
     consts, arches_tbl = st.load_header()
     pg = PolicyGen(rng, consts, arches_tbl)
     lines = []
@@ -407,24 +412,32 @@ def check_C02(ctx, replay=None):
                       replay=replay, npol=(500, 8000), nev=(40, 80), foreign_share=0.03, gen=gen)
     # the same stream through a 32-bit build of the library (GOARCH=386 binaries run on this host): the word offsets of
     # seccomp_data must not depend on the width of the build's machine word
-    if not replay or replay.get("goarch") == "386":
-        res = policy_stream(ctx, "C02", ["single_cond", "single_cond", "cond"], 150 if ctx.tier == "quick" else 2000, 30, goarch="386", salt=386,
-                            foreign_share=0.03, replay=replay if replay and replay.get("goarch") == "386" else None)
+    passes = [("386", False, 150 if ctx.tier == "quick" else 2000), ("386", True, 80 if ctx.tier == "quick" else 800), (None, True, 80 if ctx.tier == "quick" else 800)]
+    for (ga, native, npol2) in passes:
+        if replay and (replay.get("goarch") != (ga or "host") or bool(replay.get("native_endian")) != native):
+            continue
+        # (a) a 32-bit build with the byte order set by the hook, (b) the same build and (c) the host build with the byte
+        # order the library determines itself
+        res = policy_stream(ctx, "C02", ["single_cond", "single_cond", "cond"], npol2, 30, goarch=ga, salt=386 + (7 if native else 0) + (1 if ga else 0),
+                            foreign_share=0.03, replay=replay, native_endian=native)
         if res is not None:
             for c in res["cases"].values():
                 c["line"] = c["line"]
             before = len(ctx.violations)
-            ndiff, nbad = report_case_failures(ctx, res["cases"], "single-condition policies compiled by a GOARCH=386 build (C02)",
-                                               describe=lambda cid: dict(res["meta"].get(cid) or {}, goarch="386"))
+            label = "single-condition policies compiled by a %s build%s (C02)" % ("GOARCH=386" if ga else "host", " with the byte order the library determines itself" if native else "")
+            ndiff, nbad = report_case_failures(ctx, res["cases"], label,
+                                               describe=lambda cid: dict(res["meta"].get(cid) or {}, goarch=ga or "host", native_endian=native))
             for path, _ in ctx.violations[before:]:
                 with open(path) as f:
                     body = json.load(f)
-                body["goarch"] = "386"
+                body["goarch"] = ga or "host"
+                body["native_endian"] = native
                 with open(path, "w") as f:
                     json.dump(body, f, indent=1, sort_keys=True)
                     f.write("\n")
-            ctx.coverage["programs_386_build"] = int(res["summary"]["cases"])
-            ctx.coverage["events_386_build"] = int(res["summary"]["events"])
+            key = "%s_build%s" % (ga or "host", "_native_byte_order" if native else "")
+            ctx.coverage["programs_" + key] = int(res["summary"]["cases"])
+            ctx.coverage["events_" + key] = int(res["summary"]["events"])
             ctx.coverage["evaluations"] = ctx.coverage.get("evaluations", 0) + int(res["summary"]["cases"]) + int(res["summary"]["events"])
             ctx.coverage["counterexamples"] = ctx.coverage.get("counterexamples", 0) + nbad
             ctx.coverage["correspondence_differences"] = ctx.coverage.get("correspondence_differences", 0) + ndiff
